@@ -226,11 +226,12 @@ func (s *tScope) lookupStale(n string) bool {
 }
 
 type evalCtx struct {
-	env     *tplEnv
-	inserts map[string]*Node   // of the page being rendered through its layout
-	slots   map[string][]*Node // of the component use being rendered
-	slotSc  *tScope
-	depth   int
+	env       *tplEnv
+	inserts   map[string]*Node   // of the page being rendered through its layout
+	slots     map[string][]*Node // of the component use being rendered
+	slotSc    *tScope
+	depth     int
+	absentFor bool // a @for with an absent clause was evaluated
 }
 
 // exprUsesStale: does the expression read a stale binding?
@@ -402,32 +403,40 @@ func (x *evalCtx) node(n *Node, sc *tScope) (string, int, int) {
 		ls := newTScope(sc)
 		ls.stale = map[string]bool{}
 		if n.Init == nil || n.Cond == nil || n.Post == nil {
-			return "", sUnspec, ctlNone // absent clauses: only "no crash" is required (C09)
+			// absent clauses: conventional reading (no init binding / always true / no step); the
+			// statement also admits an error, so callers turn the result into {value, Error}
+			x.absentFor = true
 		}
-		iv, st := evalE(n.Init.E, ls)
-		if st != sOK {
-			return "", st, ctlNone
-		}
-		if st := assignVar(ls, n.Init.Name, iv); st != sOK {
-			return "", st, ctlNone
+		initName := ""
+		if n.Init != nil {
+			initName = n.Init.Name
+			iv, st := evalE(n.Init.E, ls)
+			if st != sOK {
+				return "", st, ctlNone
+			}
+			if st := assignVar(ls, n.Init.Name, iv); st != sOK {
+				return "", st, ctlNone
+			}
 		}
 		var sb strings.Builder
 		for pass := 0; ; pass++ {
 			if pass > 40 {
 				return "", sUnspec, ctlNone // beyond the reference horizon
 			}
-			c, st := evalE(n.Cond, ls)
-			if st != sOK {
-				return "", st, ctlNone
-			}
-			if !c.Truthy() {
-				if pass == 0 && n.HasElse {
-					return x.nodes(n.Else, ls)
+			if n.Cond != nil {
+				c, st := evalE(n.Cond, ls)
+				if st != sOK {
+					return "", st, ctlNone
 				}
-				break
+				if !c.Truthy() {
+					if pass == 0 && n.HasElse {
+						return x.nodes(n.Else, ls)
+					}
+					break
+				}
 			}
 			for k := range ls.vars {
-				if k != n.Init.Name {
+				if k != initName && n.Init != nil {
 					ls.stale[k] = true
 				}
 			}
@@ -440,6 +449,12 @@ func (x *evalCtx) node(n *Node, sc *tScope) (string, int, int) {
 				break
 			}
 			// post is applied after each pass (also after @continue)
+			if n.Post == nil {
+				continue
+			}
+			if n.Init == nil {
+				return "", sUnspec, ctlNone // a step without a loop variable: not pinned down
+			}
 			var pv Val
 			if n.Post.K == "assign" {
 				if n.Post.Name != n.Init.Name {
@@ -479,7 +494,9 @@ func (x *evalCtx) node(n *Node, sc *tScope) (string, int, int) {
 			}
 			return s, sOK, ctlNone
 		}
-		s, st, _ := x.nodes(ins.Body, newTScope(sc))
+		// "each @reserve(n) is replaced by the page's @insert(n) content": the body is evaluated in
+		// place, in the scope at the reserve (an assignment in it is visible to what follows in that block)
+		s, st, _ := x.nodes(ins.Body, sc)
 		return s, st, ctlNone
 	case "insert":
 		return "", sOK, ctlNone
@@ -507,6 +524,7 @@ func (x *evalCtx) node(n *Node, sc *tScope) (string, int, int) {
 			return "", sUnspec, ctlNone
 		}
 		s, st, _ := sub.nodes(f.Nodes, cs)
+		x.absentFor = x.absentFor || sub.absentFor
 		return s, st, ctlNone
 	case "slot":
 		body, ok := x.slots[n.Name]
@@ -520,8 +538,12 @@ func (x *evalCtx) node(n *Node, sc *tScope) (string, int, int) {
 	panic("harness bug: eval of node kind " + n.K)
 }
 
+// lastAbsentFor reports whether the last renderModel call evaluated a @for with an absent clause.
+var lastAbsentFor bool
+
 // renderModel evaluates template `name` of the tree with the given data.
 func renderModel(env *tplEnv, name string, data map[string]Val) (string, int) {
+	lastAbsentFor = false
 	f := env.files[name]
 	if f == nil {
 		return "", sErr
@@ -546,9 +568,11 @@ func renderModel(env *tplEnv, name string, data map[string]Val) (string, int) {
 			}
 		}
 		s, st, _ := x.nodes(lay.Nodes, root)
+		lastAbsentFor = x.absentFor
 		return s, st
 	}
 	s, st, _ := x.nodes(f.Nodes, root)
+	lastAbsentFor = x.absentFor
 	return s, st
 }
 
@@ -575,6 +599,10 @@ func evalTemplate(ns []*Node, data map[string]Val) (string, int) {
 func expectOf(out string, st int) Expect {
 	switch st {
 	case sOK:
+		if lastAbsentFor {
+			// absent @for clauses "are reported as errors (or have a defined result)"
+			return Expect{Kind: ESet, Alts: []Expect{{Kind: EValue, Text: out}, {Kind: EError}}}
+		}
 		return Expect{Kind: EValue, Text: out}
 	case sErr:
 		return Expect{Kind: EError}
